@@ -6,6 +6,12 @@ cd "$here"
 tier=${1:-quick}; shift
 ids=${@:-C10 C13 C19 C05 C14 C15 C04 C06 C01 C02 C03 C08 C18 C09 C07 C11 C12 C16 C17}
 mkdir -p work
+# in a `vp run --with-repo` snapshot the checks build against the snapshot of /repo, so that /repo itself stays free
+if [ -n "$VP_RUN_REPO" ] && [ -d "$VP_RUN_REPO/src" ]; then
+  sed -i "s#path = \"/repo\"#path = \"$VP_RUN_REPO\"#" harness/Cargo.toml harness-nostd/Cargo.toml
+  export VERIF_REPO="$VP_RUN_REPO"
+  echo "building against $VP_RUN_REPO"
+fi
 if [ ! -x harness/target/release/drv ]; then
   (cd harness && cargo build --offline --release 2>&1 | tail -1; cargo build --offline --profile checked 2>&1 | tail -1)
   (cd harness-nostd && cargo build --offline --release 2>&1 | tail -1)
